@@ -11,13 +11,13 @@ structure StRel (te : C.TyEnv) (stp stc : Py.St) : Prop where
   fl : stc.flow = stp.flow
   rel : Rel te stp.store stc.store
 
-/-- outcome of the C side: a state related to Python's, or signed overflow -/
+/-- outcome of the C side: a state related to Python's, or tracked undefined behaviour (`UB`) -/
 def Sim1 (te : C.TyEnv) (stp' : Py.St) (r : Except Err Py.St) : Prop :=
-  (∃ stc', r = .ok stc' ∧ StRel te stp' stc') ∨ r = .error .overflow
+  (∃ stc', r = .ok stc' ∧ StRel te stp' stc') ∨ UB r
 
 theorem cond_sim {te : C.TyEnv} {sp sc : Store} (hrel : Rel te sp sc) {c : Expr} {v : Val}
     (hwt : c.wt te = true) (hpy : Py.eval sp c = .ok v) :
-    (∃ cv, C.eval te sc c = .ok cv ∧ cv.truthy = v.truthy) ∨ C.eval te sc c = .error .overflow := by
+    (∃ cv, C.eval te sc c = .ok cv ∧ cv.truthy = v.truthy) ∨ UB (C.eval te sc c) := by
   rcases expr_sim te sp sc hrel c v hwt hpy with h | h
   · left; exact ⟨_, h, conv_truthy _ _⟩
   · right; exact h
@@ -34,7 +34,7 @@ theorem assign_sim {te : C.TyEnv} {stp stc : Py.St} (h : StRel te stp stc) {x : 
     rw [this, ok_bind]
     left
     exact ⟨_, rfl, ⟨h.tr, h.fl, Rel_set_both h.rel v hx (fun ht => bool_val te _ _ h.rel e v hwt ht hpy)⟩⟩
-  · rw [hc]; right; rfl
+  · right; exact ub_bind _ hc
 
 theorem sim (all : List String) (f : Nat) :
     (∀ te m d s s' stp stc stp', s.okNested all te = true → (∀ x ∈ s.assigned, x ∈ all) →
@@ -44,7 +44,7 @@ theorem sim (all : List String) (f : Nat) :
         (∀ v ∈ n.vars, v ∉ b.assigned) → b.okNested all ((i, .int) :: te) = true → (∀ x ∈ b.assigned, x ∈ all) →
         trNested ((i, .int) :: te) m d b = .ok b' → StRel te stp stc → stc.store.get i = some (.int k) →
         ((∃ cv, C.eval ((i, .int) :: te) stc.store (foldArg n) = .ok cv ∧ cv.toInt = nvI) ∨
-          C.eval ((i, .int) :: te) stc.store (foldArg n) = .error .overflow) →
+          UB (C.eval ((i, .int) :: te) stc.store (foldArg n))) →
         Py.exec.forLoop f i nvI k b stp = .ok stp' →
         Sim1 te stp' (C.exec.forLoop ((i, .int) :: te) f i (foldArg n) b' stc)) := by
   induction f with
@@ -81,7 +81,7 @@ theorem sim (all : List String) (f : Nat) :
           · rename_i hbr
             rw [if_neg hbr]
             exact ihe te m d b b' st1 st1c stp' hok.2 (fun x hx => hall x (.inr hx)) hb hr hpy
-        · rw [hc]; right; rfl
+        · right; exact ub_bind _ hc
       | assign x e =>
         rw [trNested] at htr
         split at htr
@@ -100,11 +100,12 @@ theorem sim (all : List String) (f : Nat) :
           rw [Py.exec] at hpy
           obtain ⟨cur, hcur, hpy⟩ := bind_ok hpy
           obtain ⟨v, hv, hpy⟩ := bind_ok hpy
+          obtain ⟨r, hr, hpy⟩ := bind_ok hpy
           cases hpy
           have hwt' : (Expr.bin op (.var x) e).wt te = true := by
             simp only [Expr.wt, hok.2, hok.1, Option.isSome_some, Bool.and_self]
-          have hpy' : Py.eval stp.store (.bin op (.var x) e) = .ok (.int (op.eval cur.toInt v.toInt)) := by
-            rw [Py.eval, hcur, ok_bind, hv, ok_bind]; rfl
+          have hpy' : Py.eval stp.store (.bin op (.var x) e) = .ok r := by
+            rw [Py.eval, hcur, ok_bind, hv, ok_bind]; exact hr
           exact assign_sim hst hwt' (by rw [hok.2]; rfl) hpy' f
         · cases htr
       | ifs c a b =>
@@ -127,7 +128,7 @@ theorem sim (all : List String) (f : Nat) :
           · rename_i hbr
             rw [if_neg hbr]
             exact ihe te m d b b' stp stc stp' hok.2 (fun x hx => hall x (.inr hx)) hb hst hpy
-        · rw [hc]; right; rfl
+        · right; exact ub_bind _ hc
       | whileLoop c b =>
         have htr0 := htr
         rw [trNested] at htr
@@ -157,11 +158,11 @@ theorem sim (all : List String) (f : Nat) :
               · rename_i hbr1
                 rw [if_neg hbr1]
                 exact ihe te m d _ _ st1 st1c stp' hok0 hall0 htr0 hr hpy
-            · rw [hc1]; right; rfl
+            · right; exact ub_bind _ hc1
           · rename_i hbr
             rw [if_neg hbr]; cases hpy
             left; exact ⟨_, rfl, hst⟩
-        · rw [hc]; right; rfl
+        · right; exact ub_bind _ hc
       | forRange i n b =>
         rw [trNested] at htr
         split at htr
@@ -185,7 +186,7 @@ theorem sim (all : List String) (f : Nat) :
             rw [hi] at this; cases this
           have hlim : (∃ cv, C.eval ((i, .int) :: te) (stc.store.set i (.int 0)) (foldArg n) = .ok cv ∧
                 cv.toInt = nv.toInt) ∨
-              C.eval ((i, .int) :: te) (stc.store.set i (.int 0)) (foldArg n) = .error .overflow := by
+              UB (C.eval ((i, .int) :: te) (stc.store.set i (.int 0)) (foldArg n)) := by
             have hrel' : Rel ((i, .int) :: te) (stp.store.set i (.int 0)) (stc.store.set i (.int 0)) :=
               Rel_cons (Rel_set_py_out hst0.rel _ hi) 0 (get_set_eq _ _ _) (get_set_eq _ _ _)
             refine foldArg_sim _ _ _ hrel' n nv (wt_sub (Sub_cons _ hi) n hnwt).1 ?_
@@ -205,7 +206,7 @@ theorem sim (all : List String) (f : Nat) :
             cases stc.store.get i with
             | some v => exact get_set_ne _ _ hy
             | none => exact get_filter_ne _ hy
-          · rw [hc1]; right; rfl
+          · right; exact ub_bind _ hc1
       | write e =>
         rw [trNested] at htr; cases htr
         simp only [Stmt.okNested, Bool.and_eq_true, beq_iff_eq] at hok
@@ -224,7 +225,7 @@ theorem sim (all : List String) (f : Nat) :
             cases hev
             show Ev.write (C.conv (inferTy te e) (Val.int k)).toInt :: stc.trace = _
             rw [hok.2, hst.tr]; rfl
-        · rw [hc]; right; rfl
+        · right; exact ub_bind _ hc
       | sleep e =>
         rw [trNested] at htr; cases htr
         simp only [Stmt.okNested] at hok
@@ -240,7 +241,7 @@ theorem sim (all : List String) (f : Nat) :
             rw [if_neg hneg]; cases hpy
             left
             exact ⟨_, rfl, ⟨by show _ :: stc.trace = _ :: stp.trace; rw [hst.tr], hst.fl, hst.rel⟩⟩
-        · rw [hc]; right; rfl
+        · right; exact ub_bind _ hc
       | brk =>
         rw [trNested] at htr
         split at htr
@@ -301,11 +302,11 @@ theorem sim (all : List String) (f : Nat) :
                   exact hfr x (by rw [trNested_assigned hb]; exact hnv x hxn)
                 rw [hcongr]
                 left; exact ⟨cv, hcv, hcvI⟩
-              · rw [hk]; right; rfl
-          · rw [hc1]; right; rfl
+              · right; exact ub_bind _ hk
+          · right; exact ub_bind _ hc1
         · rename_i hlt
           rw [if_neg hlt]; cases hpy
           left; exact ⟨_, rfl, hst⟩
-      · rw [hc]; right; rfl
+      · right; exact ub_bind _ hc
 
 end Reduino.Lemmas.C01
